@@ -57,6 +57,9 @@ CHECKS['C16'] = dict(cat='fault_enumeration', tech='TLA+ writer / LimitedReader 
 CHECKS['C10'] = dict(cat='model_checking', tech='builder typestate machine in TLA+ (all paths enumerated by TLC) + output decoded by the TLA+ reference decoder and checksum machine',
    text="spec/Builder.tla is the PacketBuilder typestate machine: every builder method is an action guarded by the typestate; TLC enumerates every complete path (ethernet2|linux_sll|none x none|single|double|explicit VLAN x ipv4|ipv6|IpHeaders with options/auth/10 extension sets|ARP x udp|tcp with every flag setter and three option forms|tcp_header|4 ICMPv4 forms|4 ICMPv6 forms|raw with protocol 253/59/0 x payload lengths {0,1,2,3,7,8,9,64} and the path's exact limit -1/0/+1) and checks the typestate invariants and SizeFits. Every path is executed on the real builder through write, write_to_vec and write_to_slice (+ a slice one byte too short, canaries). Trace_Builder uses an oracle independent of the crate: size(payload_len) = bytes written = spec Size; the three sinks agree; unencodable paths yield exactly the admissible error; the bytes are decoded by the strict reference decoder (Decoder.tla) which must find the configured layer sequence, addresses, ports, flags, options, VLAN ids, extension order (RFC 8200) and payload; every length field equals the real size; IPv4 header, UDP (never 0), TCP, ICMPv4 and ICMPv6 checksums verify under Checksum.tla.",
    note="64 kB packets are checked for sizes, verdicts and length fields only (no byte-exact decode / checksum in TLC). Field values are fixed constants of the harness.")
+CHECKS['C17'] = dict(cat='model_checking', tech='RFC dispatch tables and the NDP option machine in TLA+ (Ctl.tla): TLC over all (type,code) pairs / option token sequences + per-call trace validation',
+   text="spec/Ctl.tla transcribes the ICMPv4 (RFC 792/1122/1812) and ICMPv6 (RFC 4443/4861) type/code tables with fall-back to Unknown, the normalised header of each kind, the fixed/variable split of neighbour discovery payloads, the NDP option iterator as a machine (units of 8 bytes, zero units rejected, MTU = 1 unit, prefix information = 4 units, dead after the first error), IGMP kinds by type and message length (query v1/v2 at exactly 8, v3 at >= 12), group record headers and the ARP Ethernet/IPv4 view conditions. TLC checks UnknownFallback (totality of the dispatch, type/code/checksum preserved) and OptionTiling and enumerates the cases (thorough: all 65 536 pairs per ICMP version). Each case runs Icmpv4Slice/Icmpv6Slice (icmp_type, header, header_len, payload, payload_slice, options_iterator per next() call with byte ranges), Icmpv4Header/Icmpv6Header::from_slice, NdpOptionsIterator, IgmpHeader, ReportGroupRecordV3Header and ArpPacket::try_eth_ipv4 and is validated by Trace_Ctl.",
+   note="Typed values are compared through variant name + normalised header bytes; field-level accessors of the individual NDP option slices (e.g. prefix information flags) are only swept for memory safety (C01), not value-checked.")
 PENDING = {
 }
 NA = []
